@@ -176,13 +176,21 @@ func nameIdx(cs []compSpec, name string) int {
 }
 
 // runStart runs Start on a fresh app and returns events and the result term.
-func runStart(cs []compSpec) ([]event, string, string) {
+// doneCtx is a context that is already cancelled: the container's order and rollback rules do not depend on the
+// state of the context it is handed (components see it; the container must not cut its loops short because of it)
+func doneCtx() context.Context {
+	ctx, cancel := context.WithCancel(context.Background())
+	cancel()
+	return ctx
+}
+
+func runStart(cs []compSpec, ctx context.Context) ([]event, string, string) {
 	l := &logT{}
 	a := new(app.App)
 	for i, c := range cs {
 		a.Register(mkComp(c, i, l))
 	}
-	err := a.Start(context.Background())
+	err := a.Start(ctx)
 	res := "StartOk"
 	cls := "ok"
 	if err != nil {
@@ -219,13 +227,13 @@ func closeErrIdx(cs []compSpec, err error) (errs []int) {
 	return
 }
 
-func runClose(cs []compSpec) ([]event, []int) {
+func runClose(cs []compSpec, ctx context.Context) ([]event, []int) {
 	l := &logT{}
 	a := new(app.App)
 	for i, c := range cs {
 		a.Register(mkComp(c, i, l))
 	}
-	err := a.Close(context.Background())
+	err := a.Close(ctx)
 	errs := closeErrIdx(cs, err)
 	return l.ev, errs
 }
@@ -433,7 +441,13 @@ func main() {
 	var samples []interface{}
 
 	doList := func(cs []compSpec) {
-		ev, res, cls := runStart(cs)
+		ev, res, cls := runStart(cs, context.Background())
+		// the same list under an already cancelled context must behave the same; if it does not, the deviating
+		// observation is what gets checked
+		if ev2, res2, cls2 := runStart(cs, doneCtx()); eventsTerm(ev2) != eventsTerm(ev) || res2 != res {
+			ev, res, cls = ev2, res2, cls2
+			w.Stat("start_differs_under_cancelled_ctx")
+		}
 		term := vlib.App("CStart", compsTerm(cs), eventsTerm(ev), res)
 		nt := len(cs) >= 2
 		d := caseDesc{Kind: "start", Comps: cs, Obs: eventsTerm(ev) + " " + res}
@@ -443,7 +457,11 @@ func main() {
 		if len(samples) < 3 && len(cs) >= 3 && cls != "ok" {
 			samples = append(samples, d)
 		}
-		ev2, errs := runClose(cs)
+		ev2, errs := runClose(cs, context.Background())
+		if ev3, errs3 := runClose(cs, doneCtx()); eventsTerm(ev3) != eventsTerm(ev2) || vlib.NatList(errs3) != vlib.NatList(errs) {
+			ev2, errs = ev3, errs3
+			w.Stat("close_differs_under_cancelled_ctx")
+		}
 		term2 := vlib.App("CClose", compsTerm(cs), eventsTerm(ev2), vlib.NatList(errs))
 		d2 := caseDesc{Kind: "close", Comps: cs, Obs: eventsTerm(ev2) + " " + vlib.NatList(errs)}
 		w.Add(term2, d2, term2, nt)
